@@ -529,8 +529,12 @@ def with_heap(I, env):
     def ref_hook(ref, e):
         o = I.heap.get(ref.oid)
         if isinstance(o, ListObj):
+            if e.get("__progress_oid__") == ref.oid and e.get("__progress_live__"):
+                # the list refers to itself (if xs[-1] == '': del xs[-1]): its contents up to this point of the run
+                cur = [x for part in e.get("__progress__", ()) for x in part]
+                return tuple(cur) if o.typ == "tuple" else cur
             e = dict(e)
-            e["__progress_oid__"], e["__progress__"] = ref.oid, ()
+            e["__progress_oid__"], e["__progress__"], e["__progress_live__"] = ref.oid, (), True
             vals = eval_items(o.items, e)
             return tuple(vals) if o.typ == "tuple" else vals
         if isinstance(o, DictObj):
@@ -573,6 +577,10 @@ def with_heap(I, env):
                 else:
                     items.append(("v", a, TRUE))
             return eval_items(items, e)
+        if t.op == "count" and len(t.args) == 2 and is_const(t.args[0]) and t.args[0].v in I.loops:
+            # how many iterations of the loop satisfy a condition (the length of a filtered pass)
+            L = I.loops[t.args[0].v]
+            return len(run_loop(L, e, [("rep", L, Const(1), t.args[1])])[0])
         if t.op in ("exists", "loopret") and len(t.args) == 2 and is_const(t.args[0]) and t.args[0].v in I.loops:
             # "some iteration returns" / the value returned by the first iteration that does
             L = I.loops[t.args[0].v]
@@ -668,6 +676,8 @@ def eval_items(items, env, cap=4096):
     """Concrete value of a summarised list: 'rep' items are expanded by running their loop's summary."""
     out = []
     k = 0
+    env = dict(env)
+    env["__progress__"] = env.get("__progress__", ()) + (out,)
     while k < len(items):
         it = items[k]
         if it[0] == "v":
@@ -693,9 +703,7 @@ def eval_items(items, env, cap=4096):
         while k < len(items) and items[k][0] == "rep" and loop_root(items[k][1], env) is L:
             group.append(items[k])
             k += 1
-        env2 = dict(env)
-        env2["__progress__"] = env.get("__progress__", ()) + (out,)
-        out.extend(run_loop(L, env2, group, cap)[0])
+        out.extend(run_loop(L, env, group, cap)[0])
     return out
 
 
